@@ -33,6 +33,7 @@ func runC02(rc *RunCtx) {
 	fee := c02Fees[fi]
 	rc.NewMintWorld(ln, MintOpts{Fee: uint(fee), MPP: true})
 	m := NewMW(rc, "A")
+	m.Locks = true
 	m.MPP = true
 	m.Strict = ln.PayOutcomeMix == 0
 	m.Fees = map[string][]uint64{"A": c02Fees}
